@@ -10,5 +10,11 @@ def run(chk):
     genrules.r04_grammar(chk)
     genrules.expansion_diffs(chk, "R04-shipped", lambda k: "[parse]" in k and "ParseableA2lObject" in k,
                              "generated parsers of specification.rs identical (canonical form) to the in-tree generator's output for the in-tree DSL")
+    # R04-helpers: the run-time helpers the generated parsers rely on for version gating, multiplicity and block/keyword form
+    from . import diag, c06, mir
+    helpers = ("check_block_version_lower", "check_block_version_upper", "check_enumitem_version_lower", "check_enumitem_version_upper",
+               "handle_multiplicity_error", "require_block", "require_keyword", "get_identifier", "expect_token", "get_string_maxlen")
+    diag.compare(chk, "R04-helpers", "parser", c06.parser_table(mir.prog()), "diagnostics of the helper functions behind version gating, multiplicity and block/keyword form, with their control predicates, compared with the reviewed table",
+                 floor=10, fn_filter=lambda fn: fn.split("::")[-1] in helpers)
     chk.assumptions += ["oracle/grammar_171.json is the A2L 1.7.1 grammar (frozen, reviewed copy of the DSL of the pinned commit)",
                         "not decided: that a whole document built from the grammar loads without diagnostics (composition with the tokenizer)"]
